@@ -6,6 +6,7 @@ the trusted base); the saturated-regime check and the mirrored-run comparison on
 the tie to the code.
 -/
 import Bourse.Model.Momentum
+import Bourse.Lemmas.MomentumF64
 import Mathlib.Tactic.Ring
 import Mathlib.Tactic.Linarith
 import Mathlib.Algebra.Order.Field.Rat
@@ -116,6 +117,50 @@ example :
     signals (1/2) ([100, 101, 103, 103].map fun P => 2 * 100 - P) = [0, -1/2, -5/4, -5/8] ∧
     Momentum.decide (pMarket th 5 1 2 (5/4)) (5/4) (1/2) = .buy ∧
     Momentum.decide (pMarket th 5 1 2 (-5/4)) (-5/4) (1/2) = .sell := by
+  decide +kernel
+
+/-! ### The same statements in the arithmetic the agent performs: binary64
+
+`Model/FloatAgents.lean` computes the signal with the `f64` model (`M' = fl(fl(M·fl(1 − decay)) +
+fl(decay·fl(P − p)))`, `p = |fl(fl(demand·tanh(fl(scale·M'))) / n)|`); the correspondence check requires this
+model to predict every decision of the real agents bit for bit. `tanh` is any function `th` with
+`th(−x) = −th(x)` (true of libm's implementation, which the tie records as a table). -/
+
+/-- Rounding commutes with negation: the source of every symmetry below. -/
+theorem f64_round_odd (x : Rat) : F64.rnd (-x) = F64.neg (F64.rnd x) := F64.rnd_neg x
+
+/-- **The trade probability depends only on the magnitude of `M`**, in `f64`, for every parameterisation. -/
+theorem probability_depends_on_magnitude_f64 (c : FAgents.MomP) (th : F → F)
+    (hodd : ∀ x, th (F64.neg x) = F64.neg (th x)) (hn : 0 < c.n) (m : F) :
+    FAgents.pMarket c th (F64.neg m) = FAgents.pMarket c th m := FAgents.pMarket_neg c th hodd hn m
+
+/-- **Mirroring a price history about a fixed level mirrors the signal**, in `f64`: along every path of
+observed mid-prices, from the initial state, the mirrored run's `M` is the negative of the original's at
+every update and the market- and limit-order probabilities are the same `f64` values. -/
+theorem momentum_mirror_f64 (c : FAgents.MomP) (th : F → F)
+    (hodd : ∀ x, th (F64.neg x) = F64.neg (th x)) (hn : 0 < c.n) (L : Rat) (path : List Rat) :
+    FAgents.signalsFrom c th FAgents.MomState.init (path.map fun x => 2 * L - x) =
+      (FAgents.signalsFrom c th FAgents.MomState.init path).map fun r => (F64.neg r.1, r.2.1, r.2.2) := by
+  have h := FAgents.signals_mirror c th hodd hn L path FAgents.MomState.init (by intro p hp; simp [FAgents.MomState.init] at hp)
+  simpa [FAgents.mirrorState, FAgents.MomState.init, F64.neg] using h
+
+/-- and the buy test `0 < M` of one run is the sell test `M < 0` of the other, so with the same uniform
+draws buys become sells at the same steps. -/
+theorem direction_mirror_f64 (m : F) :
+    F64.lt (.fin 0) (F64.neg m) = F64.lt m (.fin 0) ∧ F64.lt (F64.neg m) (.fin 0) = F64.lt (.fin 0) m :=
+  FAgents.direction_mirror m
+
+/-- Non-vacuity in `f64`: decay 0.3 (not a dyadic number: bits 0x3FD3333333333333), an odd stand-in for
+`tanh`, a path with half-tick mids and its mirror about 100: the signals are exact negatives of each
+other (e.g. `±1925288840700887 / 2^51` at the third update) and the probabilities coincide. -/
+def exC : FAgents.MomP := { asset := 0, tick := 1, vol := 1, traders := [0, 1], pCancel := .fin 0,
+                            decay := F64.ofBits 0x3FD3333333333333, demand := .fin 5, scale := .fin (1/2), ratio := .fin 1, n := 2 }
+def exTh : F → F := fun x => x
+def exA := FAgents.signalsFrom exC exTh FAgents.MomState.init [100, 201/2, 103, 205/2]
+def exB := FAgents.signalsFrom exC exTh FAgents.MomState.init [100, 199/2, 97, 195/2]
+
+example : exA.map (·.1) = exB.map (fun r => F64.neg r.1) ∧ exA.map (·.2) = exB.map (·.2) ∧
+    (exA.map (·.1))[2]? = some (.fin (1925288840700887 / 2251799813685248)) := by
   decide +kernel
 
 end Bourse.Props.C17
